@@ -3,13 +3,18 @@
 //! The input numbers start with the component number understood by `mrun` (the extracted model).
 mod broadcast;
 mod codec;
+mod handle;
+mod lazy;
 mod conn;
+mod endpoint;
+mod net;
 mod port;
 mod robs_deque;
 mod robs_list;
 mod robs_vec;
 mod io;
 mod rng;
+mod rwlock;
 mod robs_map;
 mod robs_set;
 mod rtc;
@@ -73,6 +78,58 @@ pub fn drive(
     }
 }
 
+/// Separator between a case and the observation appended to it (trace acceptance).
+pub const OBS_SEP: u128 = 777_777_777;
+
+/// Driver for trace acceptance: like [drive], but `exec` also returns the observation of the
+/// implementation, which is appended to the printed input behind [OBS_SEP]; the model side then
+/// decides whether that observation is one of its histories.  On replay an observation already
+/// present in the line is replaced by the fresh one.
+pub fn drive_accept(
+    comp: u128, seed: u64, count: usize, extra: &[String], out: &mut impl Write,
+    mut gen: impl FnMut(&mut rng::Rng, usize) -> Vec<Vec<u128>>,
+    mut exec: impl FnMut(&[u128]) -> (Vec<u128>, Vec<u128>, String, String),
+) {
+    let mut one = |inp: &[u128], out: &mut dyn Write| {
+        let inp: Vec<u128> = inp.iter().copied().take_while(|x| *x != OBS_SEP).collect();
+        out.flush().unwrap();
+        watchdog_arm(comp, &inp);
+        let (obs, o, sig, oracle) = exec(&inp);
+        watchdog_disarm();
+        let mut input = vec![comp];
+        input.extend(inp);
+        input.push(OBS_SEP);
+        let obs_empty = obs.is_empty();
+        input.extend(obs);
+        let j = |v: &Vec<u128>| v.iter().map(|x| x.to_string()).collect::<Vec<_>>().join(" ");
+        writeln!(out, "{}\t{}\t{}\t{}", j(&input), j(&o), sig, oracle).unwrap();
+        if oracle != "ok" && !obs_empty {
+            // the acceptance verdict of a case whose oracle fails (possibly a known finding) must stay
+            // visible: same input and output again, judged by the model comparison only
+            let sig2 = format!("acc:{}", sig.trim_start_matches("F5:"));
+            writeln!(out, "{}\t{}\t{}\tok", j(&input), j(&o), sig2).unwrap();
+        }
+    };
+    if let Some(pos) = extra.iter().position(|a| a == "--replay") {
+        let text = std::fs::read_to_string(&extra[pos + 1]).expect("replay file");
+        for line in text.lines() {
+            let line = line.split('\t').next().unwrap_or("");
+            let nums: Vec<u128> = line.split_whitespace().filter_map(|t| t.parse().ok()).collect();
+            if nums.first() == Some(&comp) {
+                one(&nums[1..], out);
+            }
+        }
+        return;
+    }
+    let mut r = rng::Rng::new(seed);
+    for i in 0..count {
+        let mut rr = r.fork();
+        for inp in gen(&mut rr, i) {
+            one(&inp, out);
+        }
+    }
+}
+
 static WATCHDOG: std::sync::Mutex<Option<(std::time::Instant, String)>> = std::sync::Mutex::new(None);
 
 /// Wall-clock watchdog: a case that does not finish (a livelock never becomes idle under the paused
@@ -126,6 +183,8 @@ fn main() {
     match comp {
         "codec" => codec::run(seed, count, &extra, &mut out),
         "port" => port::run(seed, count, &extra, &mut out),
+        "endpoint" => endpoint::run(seed, count, &extra, &mut out),
+        "net" => net::run(seed, count, &extra, &mut out),
         "robs_deque" => robs_deque::run(seed, count, &extra, &mut out),
         "robs_list" => robs_list::run(seed, count, &extra, &mut out),
         "robs_vec" => robs_vec::run(seed, count, &extra, &mut out),
@@ -135,6 +194,9 @@ fn main() {
         "io" => io::run(seed, count, &extra, &mut out),
         "rtc" => rtc::run(seed, count, &extra, &mut out),
         "rtc_cancel" => rtc::run_cancel(seed, count, &extra, &mut out),
+        "handle" => handle::run(seed, count, &extra, &mut out),
+        "lazy" => lazy::run(seed, count, &extra, &mut out),
+        "rwlock" => rwlock::run(seed, count, &extra, &mut out),
         _ => {
             eprintln!("unknown component {comp}");
             std::process::exit(2);
